@@ -583,6 +583,27 @@ class ConcWorld:
             del self.inside[t]
             sch.log('leave', t)
 
+    def check_elapsed(self, t, rnd, how, t0, ok):
+        """C12's timing clause under real contention: a non-blocking attempt returns at once, a timed one within its timeout
+        for each of the two waiting stages plus one poll interval (virtual time, so the bound is exact)."""
+        mode = rnd['mode']
+        to = {'nb': None, 'timed': SMALL}.get(mode, self.prog['ctor_timeout'])
+        if mode == 'nb':
+            bound = 0.0
+        elif to is not None and to >= 0:
+            bound = 2 * to + POLL
+        else:
+            return
+        el = self.sch.clock - t0
+        if el > bound + 1e-9:
+            self.violations.append({'property': 'C12', 'oracle': 'filelock.conc_timing',
+                                    'signature': 'an attempt with a deadline outlasted it under contention',
+                                    'detail': f'thread {t} {how} (mode {mode}, obj {rnd["obj"]}, timeout {to}) returned '
+                                              f'{"success" if ok else "failure"} after {el} s, bound {bound} s; '
+                                              f'reentrant={self.prog["reentrant"]} nobj={self.prog["nobj"]}',
+                                    'features': {'mode': mode, 'ok': ok}, 'step': self.sch.step, 't': self.sch.clock})
+            self.sch.log('VIOL', 'filelock.conc_timing')
+
     def acq_kwargs(self, rnd):
         if rnd['mode'] == 'nb':
             return {'blocking': False}
@@ -607,8 +628,11 @@ class ConcWorld:
         kw = self.acq_kwargs(rnd)
         if rnd.get('inner_raise') and rnd['nest'] > 1:
             return self.do_round_raising(t, rnd, depth, top)
+        t0 = self.sch.clock
         if how == 'acquire':
-            if lock.acquire(**kw):
+            ok = lock.acquire(**kw)
+            self.check_elapsed(t, rnd, how, t0, ok)
+            if ok:
                 try:
                     self.critical(t, lock, rnd, how)
                     if depth > 1:
@@ -618,20 +642,30 @@ class ConcWorld:
             else:
                 self.failed += 1
         elif how == 'ctx':
+            entered = False
             try:
                 with lock.acquire_ctx(**kw):
+                    entered = True
+                    self.check_elapsed(t, rnd, how, t0, True)
                     self.critical(t, lock, rnd, how)
                     if depth > 1:
                         self.do_round(t, rnd, depth - 1)
             except TimeoutError:
+                if not entered:
+                    self.check_elapsed(t, rnd, how, t0, False)
                 self.failed += 1
         else:
+            entered = False
             try:
                 with lock:
+                    entered = True
+                    self.check_elapsed(t, rnd, how, t0, True)
                     self.critical(t, lock, rnd, how)
                     if depth > 1:
                         self.do_round(t, rnd, depth - 1)
             except TimeoutError:
+                if not entered:
+                    self.check_elapsed(t, rnd, how, t0, False)
                 self.failed += 1
 
     def do_round_raising(self, t, rnd, depth, top):
